@@ -49,6 +49,33 @@ def judgeStruct (members : List String) : List (Dict × Dict) → Nat → Option
   | [], _ => none
   | (st, mem) :: rest, i => if membersAgreeB members st mem then judgeStruct members rest (i + 1) else some i
 
+/-- what is recorded about the error states after one operation on a module with a struct parameter -/
+structure SInfo where
+  ok : Bool := true             -- the operation returned (a request was answered without error, a call did not raise)
+  announced : Bool := false     -- a VALUE of the struct parameter was announced during the operation (update message)
+  flagged : List String := []   -- the members that are in error state (`readerror`) or were never announced, afterwards
+  deriving Repr, DecidableEq, Inhabited
+
+/-- agreement "member by member" extends to the error state: an operation that returned and during which the module
+announced a valid value of the struct leaves no member in error state — a member that failed earlier (a failed read of the
+member, an error announced for it) recovers together with the struct, whether its value has changed or not -/
+def MembersRecovered (members : List String) (r : SInfo) : Prop :=
+  r.ok = true → r.announced = true → ∀ m ∈ members, m ∉ r.flagged
+
+instance (members : List String) (r : SInfo) : Decidable (MembersRecovered members r) :=
+  inferInstanceAs (Decidable (r.ok = true → r.announced = true → ∀ m ∈ members, m ∉ r.flagged))
+
+def membersRecoveredB (members : List String) (r : SInfo) : Bool := decide (MembersRecovered members r)
+
+/-- the monitor for one record: values and error states -/
+def structRecOkB (members : List String) (e : Dict × Dict × SInfo) : Bool :=
+  membersAgreeB members e.1 e.2.1 && membersRecoveredB members e.2.2
+
+/-- index of the first record that breaks one of the two clauses -/
+def judgeStructR (members : List String) : List (Dict × Dict × SInfo) → Nat → Option Nat
+  | [], _ => none
+  | e :: rest, i => if structRecOkB members e then judgeStructR members rest (i + 1) else some i
+
 /-! ## float parameter bound to an enumerated index -/
 
 /-- "always shows the value belonging to the current index" -/
@@ -266,25 +293,30 @@ instance (n nout : Nat) (outOf : Nat → Nat) (o : Nat) (cbB cbA : Nat → Optio
 structure CRec where
   takeover : Takeover
   target : Option Nat      -- the output the operation was issued on (directly or through one of its inputs)
-  strong : List Bool       -- per output: none of its inputs was switched off behind its back so far (`NamesActive` expected)
+  ok : Bool := true        -- the operation returned (false: an exception came out of it, e.g. a `set_control_active` that failed)
+  strong : List Bool       -- per output: none of its inputs was switched off behind its back and no operation on it failed so far (`NamesActive` expected)
   cbB : List (Option Nat)  -- `controlled_by` of every output before …
   actB : List Bool         -- … and `control_active` of every input before the operation
   cb : List (Option Nat)   -- after
   act : List Bool
   deriving Repr, DecidableEq, Inhabited
 
+/-- what the statement demands of one recorded operation: at most one marked input per output and the output names it — at
+every quiescent point, also after an operation that failed half-way (a controller that could not be switched off, a new
+one that could not be switched on); an operation that took over control AND returned left exactly the new controller marked
+and named; the stronger reading where it is expected; and the other outputs untouched -/
 def ControlOk (n nout : Nat) (outs : List Nat) (r : CRec) : Prop :=
   let outOf := fun i => outs.getD i 0
   let cb := fun o => (r.cb.getD o none)
   let act := fun i => r.act.getD i false
-  AllSingle n nout outOf cb act ∧ TakenOver n outOf r.takeover cb act ∧
+  AllSingle n nout outOf cb act ∧ (r.ok = true → TakenOver n outOf r.takeover cb act) ∧
   (∀ o, o < nout → r.strong.getD o false = true → NamesActive n outOf o (cb o) act) ∧
   (∀ o, r.target = some o → OthersUntouched n nout outOf o (fun o => r.cbB.getD o none) cb (fun i => r.actB.getD i false) act)
 
 instance (n nout : Nat) (outs : List Nat) (r : CRec) : Decidable (ControlOk n nout outs r) :=
   inferInstanceAs (Decidable (
     AllSingle n nout (fun i => outs.getD i 0) (fun o => (r.cb.getD o none)) (fun i => r.act.getD i false) ∧
-    TakenOver n (fun i => outs.getD i 0) r.takeover (fun o => (r.cb.getD o none)) (fun i => r.act.getD i false) ∧
+    (r.ok = true → TakenOver n (fun i => outs.getD i 0) r.takeover (fun o => (r.cb.getD o none)) (fun i => r.act.getD i false)) ∧
     (∀ o, o < nout → r.strong.getD o false = true →
       NamesActive n (fun i => outs.getD i 0) o (r.cb.getD o none) (fun i => r.act.getD i false)) ∧
     (∀ o, r.target = some o → OthersUntouched n nout (fun i => outs.getD i 0) o (fun o => r.cbB.getD o none)
